@@ -28,6 +28,13 @@ def make_cases(rng, tier, diff_here):
             rules = rules_with_failing(5, (i,))
             rules[i]["kind"] = "bigfail"
             cases.append(base("ExecuteDAGModel", rules, layers=ly, hold=NAMES[i]))
+    # the SAME dag value used for two calls in a row (unknown names before, between and after existing ones): the second call
+    # runs what the first one ran — a call does not edit the layers it is handed
+    for ly in ([["zz", "ra", "rb"], [], ["yy", "rc"]], [["", "ra"], ["rb", "", "zz", "rb"], [], ["rc"]], [["ra", "zz", "rb", "yy", "rc"]], [["zz"], ["yy", "ra"]]):
+        for f in ((), (1,)):
+            c = base("ExecuteDAGModel", rules_with_failing(4, f), layers=ly, prev="stale")
+            c["again"] = True
+            cases.append(c)
     # very WIDE layers (70 and 130 names: each rule named many times, every occurrence runs): with and without a failing rule early
     # in the layer — the whole layer runs, the next one only when nothing failed
     for width in (70, 130):
